@@ -15,7 +15,7 @@ class InitProbe(e2.Probe):
         self.paths = sorted(vals)
         d = cinit.decl(t)
         objdecl = cinit.field(t, "OBJ")
-        itext = cinit.ctext(init) if init[0] != "str" else '"%s"' % init[1]
+        itext = cinit.ctext(init)
         self.itext = itext
         src = d + "%s = %s;\n" % (objdecl.replace("OBJ", "gs_" + fn), itext)
         self.readers = []
@@ -174,6 +174,71 @@ def copy_probes():
     return P
 
 
+def addr_probes(tier):
+    """address constants with offsets (C11 6.6p9) as initializers of static AND automatic pointer objects: the value read
+    back, minus the base object's address, must be the byte offset given by the C11/psABI layout (reference table below)"""
+    from cref import LONG
+    pre = ("int arr[8]; struct G { char a; long b[3]; short c; struct { int x, y; } in[2]; } g; char str[] = \"hello\";\n"
+           "int fn1(int x) { return x; }\n")
+    TRUE = z3.BoolVal(True)
+    const = lambda n: (lambda: (z3.BitVecVal(n, 64), TRUE))
+    cases = []      # (key, declaration with %s = storage class, expression read back, expected value)
+    Is = range(0, 9) if tier == "thorough" else (0, 1, 5, 8)
+    Js = range(0, 4) if tier == "thorough" else (0, 3)
+    for I in Is:
+        cases += [("arr-index/%d" % I, "%sint *p = &arr[%d];" % ("%s", I), "(long)p - (long)arr", 4 * I),
+                  ("arr-plus/%d" % I, "%sint *p = arr + %d;" % ("%s", I), "(long)p - (long)arr", 4 * I),
+                  ("plus-arr/%d" % I, "%sint *p = %d + arr;" % ("%s", I), "(long)p - (long)arr", 4 * I),
+                  ("arr-index-minus9/%d" % I, "%sint *p = &arr[%d] - 9;" % ("%s", I), "(long)p - (long)arr", 4 * (I - 9))]
+        for J in Js:
+            cases += [("arr-index-minus/%d-%d" % (I, J), "%sint *p = &arr[%d] - %d;" % ("%s", I, J), "(long)p - (long)arr", 4 * (I - J)),
+                      ("arr-index-plus/%d-%d" % (I, J), "%sint *p = &arr[%d] + %d;" % ("%s", I, J), "(long)p - (long)arr", 4 * (I + J))]
+        if I < 6:
+            cases += [("string-plus/%d" % I, "%schar *p = \"hello\" + %d;" % ("%s", I), "p[0]", b"hello\0"[I]),
+                      ("string-index/%d" % I, "%schar *p = &\"hello\"[%d];" % ("%s", I), "p[0]", b"hello\0"[I]),
+                      ("chararray-plus/%d" % I, "%schar *p = str + %d;" % ("%s", I), "(long)p - (long)str", I),
+                      ("chararray-index/%d" % I, "%schar *p = &str[%d];" % ("%s", I), "(long)p - (long)str", I)]
+    for I in range(3):
+        cases += [("member-array/%d" % I, "%slong *p = &g.b[%d];" % ("%s", I), "(long)p - (long)&g", 8 + 8 * I),
+                  ("member-array-decay/%d" % I, "%slong *p = g.b + %d;" % ("%s", I), "(long)p - (long)&g", 8 + 8 * I),
+                  ("member-as-integer/%d" % I, "%slong p = (long)&g.b[%d];" % ("%s", I), "p - (long)&g", 8 + 8 * I),
+                  ("cast-chain/%d" % I, "%slong *p = (long *)((char *)&g + 8) + %d;" % ("%s", I), "(long)p - (long)&g", 8 + 8 * I)]
+    for I in range(2):
+        cases += [("nested-member/%d" % I, "%sint *p = &g.in[%d].y;" % ("%s", I), "(long)p - (long)&g", 36 + 8 * I + 4)]
+    for K in (0, 1, 7, 33, 51):
+        cases += [("byte-offset/%d" % K, "%schar *p = (char *)&g + %d;" % ("%s", K), "(long)p - (long)&g", K)]
+    cases += [("member-scalar", "%sshort *p = &g.c;", "(long)p - (long)&g", 32),
+              ("function", "%sint (*p)(int) = fn1;", "(long)p - (long)fn1", 0),
+              ("function-addr", "%sint (*p)(int) = &fn1;", "(long)p - (long)fn1", 0),
+              ("struct-of-pointers", "%sstruct { int *x; char pad; long *y; } t = { &arr[3], 1, &g.b[2] };", "((long)t.x - (long)arr) * 1000 + ((long)t.y - (long)&g) + t.pad * 100000", 12 * 1000 + 24 + 100000),
+              ("array-of-pointers", "%sint *pa[3] = { arr, &arr[5], arr + 2 };", "((long)pa[0] - (long)arr) * 1000000 + ((long)pa[1] - (long)arr) * 1000 + ((long)pa[2] - (long)arr)", 20 * 1000 + 8),
+              ("designated-pointers", "%sstruct { int *x; long *y; char *z; } t = { .z = str + 4, .x = arr + 1 };", "((long)t.x - (long)arr) * 1000 + ((long)t.z - (long)str) + ((long)t.y) * 100000", 4 * 1000 + 4),
+              ("null-and-offsetof", "%slong p = (long)&((struct G *)0)->in[1].x;", "p", 36 + 8)]
+    P = []
+    n = 0
+    for key, decl, expr, want in cases:
+        for sc, stor in (("static", "static "), ("automatic", "")):
+            n += 1
+            fn = "ac%d" % n
+            body = "%s return %s;" % (decl % stor, expr)
+            P.append(e2.ScalarProbe("init/addrconst/%s/%s" % (sc, key), fn, LONG, [], body, const(want), family="init", pre=pre, max_visits=8))
+    # pointer to a static pointer object, file-scope objects
+    for I in (0, 6):
+        n += 1
+        fn = "ac%d" % n
+        P.append(e2.ScalarProbe("init/addrconst/static/pointer-to-pointer/%d" % I, fn, LONG, [], "static int *p0 = &arr[%d]; static int **pp = &p0; return (long)*pp - (long)arr;" % I,
+                                const(4 * I), family="init", pre=pre, max_visits=8))
+        n += 1
+        fn = "ac%d" % n
+        P.append(e2.ScalarProbe("init/addrconst/file-scope/arr-index/%d" % I, fn, LONG, [], "return (long)gp_%s - (long)arr;" % fn,
+                                const(4 * I), family="init", pre=pre + "int *gp_%s = &arr[%d];\n" % (fn, I), max_visits=8))
+    import re
+    for p in P:           # several probes are compiled into one file: make the shared object names unique per probe
+        for nm in ("arr", "str", "fn1", "G", "g"):
+            p.csrc = re.sub(r"\b%s\b" % nm, "%s_%s" % (nm, p.fn), p.csrc)
+    return P
+
+
 def run(chk, tier):
     import multiprocessing as mp
     seed = chk.seed
@@ -208,6 +273,10 @@ def run(chk, tier):
                       "with designators, brace elision, strings, short lists, trailing commas; every scalar leaf of the static AND the automatic object read back; "
                       "of these %d are the systematic family {D = v, v, v} / {v, D = v, v} for every designator chain D (depth <= 4) into every type" % (len(probes), nsys))
     cp = copy_probes()
+    ap = addr_probes(tier)
+    chk.bounds.append("initializers (E2): %d address-constant initializers (array element / member / byte-offset / string-literal / function addresses with positive and negative "
+                      "offsets, in scalars, structs, arrays, designated) for static and automatic objects: value read back minus the base address equals the layout offset" % len(ap))
+    cp = cp + ap
     e2.run_probes(chk, cp, chunk=4)
     chk.bounds.append("initializers (E2): %d shapes of automatic objects initialised from an expression of struct/union type with a symbolic payload "
                       "(whole object, element of a braced list, designated member, array elements, call result)" % len(cp))
